@@ -84,6 +84,22 @@ func (s *State) callFunc(fn *ssa.Function, args []Value, where string, closure .
 	if h := s.eng.intrinsic(fn, name); h != nil {
 		return h(s, fn, args, where)
 	}
+	if s.pure == 0 && s.ghostlog[shortFn(fn)] {
+		// designated by the contract (ghostlog): the call is an observable event of this function, not executed
+		var res []Value
+		for i, t := range resultTypes(fn.Signature) {
+			res = append(res, s.symValue(t, fmt.Sprintf("%s.ret%d", lastSeg(shortFn(fn)), i)))
+		}
+		e := LogEntry{Callee: shortFn(fn), Args: args, Arr: &ArrZero{W: 8}, Off: Const(64, 0), N: Const(64, 0), RetN: Const(64, 0), Err: s.zeroValue(errorType())}
+		if len(res) > 0 {
+			if iv, ok := res[len(res)-1].(*IfaceV); ok {
+				e.Err = iv
+			}
+			e.Rets = res
+		}
+		s.log = append(s.log, e)
+		return res
+	}
 	isClosure := len(closure) > 0 && closure[0]
 	if isClosure {
 		// bindings were appended after args: split
